@@ -276,7 +276,7 @@ class Gen:
         self.burst = rng.random() < P['burst']
         self.eager = rng.random() < P['eager_flush']
         self.n_events = rng.randint(*P['events'])
-        self.fsm_misuse = rng.random() < P['fsm_misuse']
+        self.fsm_misuse = rng.random() < P['fsm_misuse'] and 'F-POISON' not in self.avoid
         self.race_start = rng.random() < P['race_start']
         self.misuse = P['misuse'] * rng.choice([0, 0.5, 1, 1, 2])
         self.max_streams = rng.choice([1, 2, 4, 8, 20, 40])
@@ -301,6 +301,8 @@ class Gen:
         self.cfg = cfg
         self.w = World(cfg)
         self.w.monitors = list(monitors)
+        for m in self.w.monitors:
+            m.start(self.w)
         self.hg = {ep: HdrGen(rng, P['hdr_variety'], P['big_headers'],
                               cfg[World.peer(ep)]['header_encoding']) for ep in ('c', 's')}
         self.unacked = {'c': [], 's': []}
@@ -643,8 +645,8 @@ class Gen:
         return d
 
     def _op_settings(self, ep, e, trk, live):
-        if trk.sent_settings and 'F-ACK-MATCHING' in self.avoid:
-            return
+        if trk.acks_received == 0 and 'F-ACK-INITIAL' in self.avoid:
+            return      # an update before the initial SETTINGS is acknowledged: known finding
         d = self._settings_dict(ep)
         if d:
             self.call(ep, 'update_settings', settings=d)
@@ -822,7 +824,7 @@ class Gen:
                     d = d2
                 else:
                     d.update(d2)
-            if trk.sent_settings and 'F-ACK-MATCHING' in self.avoid:
+            if trk.acks_received == 0 and 'F-ACK-INITIAL' in self.avoid:
                 return
             self.call(ep, 'update_settings', settings=d)
         elif k == 10:
